@@ -32,6 +32,10 @@ def run(ctx):
         unitscheck.run_menu(ctx, name, menu, depth)
     from checks import mconvcheck
     mconvcheck.rejected_updates(ctx)
+    # rejected currency declarations (invalid minor unit / smallest fraction / symbol, unknown or malformed ISO codes)
+    from checks import c08, moneycheck
+    cur = c08.newcur_cases() + [dict(op='iso', code=c) for c in ('XAU', 'XXX', 'eur', 'EURO', '', 'ABC', 'DEM', ' USD', 'usd')]
+    moneycheck.judge(ctx, cur, 'currencies', codes=['EUR'])
     from checks import unitstrace
     unitstrace.run(ctx, 150 if ctx.tier == 'quick' else 3000, 30 if ctx.tier == 'quick' else 40)
 
@@ -40,6 +44,9 @@ def replay(ctx, rp):
     if rp['replay'].get('kind') == 'unitstrace':
         from checks import unitstrace
         return unitstrace.replay(ctx, rp)
+    if rp['replay'].get('kind') in ('money', 'money-plain'):
+        from checks import c09
+        return c09.replay(ctx, rp)
     if rp['replay'].get('kind') == 'RateTable':
         from checks import mconvcheck
         return mconvcheck.replay(ctx, rp)
